@@ -228,6 +228,17 @@ def generate(ctx):
     ks = ctx.pick([2, 2, 3, 3, 4], [2, 3, 3, 4, 4, 5])
     yield "bounds", dict(k=2, arcs="0", fam="arc-less")
     yield "bounds", dict(k=3, arcs="0", fam="arc-less")
+    for _ in range(ctx.pick(40, 300)):
+        k = rng.choice([2, 2, 3, 3, 4])
+        d = rng.choice([1, 2, 2, 3, 3, 4])
+        acc, S = gens.closed_graph(rng, k, d, density=rng.choice([0.85, 0.95, 1.0]))
+        if acc is None:
+            continue
+        for v in S:
+            js = [j for j in range(4) if acc[v, j] >= 0]
+            for j in rng.sample(js, len(js) - d):
+                acc[v, j] = -1
+        yield "regular", dict(gens.graph_case(acc, k), d=d)
     for _ in range(ctx.pick(500, 4000)):
         k = rng.choice(ks)
         fam = rng.choice(["dense", "dense", "trigger", "trigger", "generated", "tails", "arc", "uniform-raw-degree", "uniform-raw-degree",
@@ -258,17 +269,6 @@ def generate(ctx):
         if acc is None or not (acc >= 0).any():
             continue
         yield "capacity", dict(gens.graph_case(acc, k), fam=fam, npseed=rng.getrandbits(32))
-    for _ in range(ctx.pick(40, 300)):
-        k = rng.choice([2, 2, 3, 3, 4])
-        d = rng.choice([1, 2, 2, 3, 3, 4])
-        acc, S = gens.closed_graph(rng, k, d, density=rng.choice([0.85, 0.95, 1.0]))
-        if acc is None:
-            continue
-        for v in S:
-            js = [j for j in range(4) if acc[v, j] >= 0]
-            for j in rng.sample(js, len(js) - d):
-                acc[v, j] = -1
-        yield "regular", dict(gens.graph_case(acc, k), d=d)
     for _ in range(ctx.pick(20, 200)):
         k = rng.choice([1, 2, 3])
         n = 4 ** k
